@@ -1,7 +1,197 @@
-(* Property C19 — placeholder while the check is being built. *)
-From Coq Require Import List Arith ZArith.
-From PTN Require Import Special.Chain Models.Ising.
+(* Property C19 — special-topology constructors, the leg permutation of TTNO.from_tensor and the
+   Ising model builders.  Statements only; each is closed by `exact`. *)
+From Coq Require Import List Arith ZArith Permutation.
+From PTN Require Import TTN.Store TTN.Inv Tree.RTree Special.Chain Special.ChainProofs Models.Ising Models.IsingProofs.
 Import ListNotations.
-Example C19_example : option_map (fun m => lefts m) (mps_from_list [[1;2];[1;1;2];[1;2]] 1) = Some [0].
+
+(* ---- MatrixProductTree.from_tensor_list: all lengths, all root positions, all tensor shapes ------ *)
+(* whenever the constructor returns (no step raised): the node dictionary is the closed form
+   mps_nodes (root record, then the sites left of the root going outward, then the sites to its right),
+   the root is the requested site, left_nodes = site0..site(r-1), right_nodes = site(r+1)..site(L-1) *)
+Theorem C19_mps_closed_form : forall (shapes : list (list nat)) (r : nat) (m : mpt),
+  mps_from_list shapes r = Some m ->
+  r < length shapes /\ nodes (mst m) = mps_nodes shapes r /\ root (mst m) = Some r
+  /\ lefts m = seq 0 r /\ rights m = seq (S r) (length shapes - S r).
+Proof. exact mps_from_list_struct. Qed.
+Print Assumptions C19_mps_closed_form.
+
+Theorem C19_mps_dict_order : forall (shapes : list (list nat)) (r : nat), r < length shapes ->
+  akeys (mps_nodes shapes r) = r :: rev (seq 0 r) ++ seq (S r) (length shapes - S r).
+Proof. exact mps_nodes_keys. Qed.
+Print Assumptions C19_mps_dict_order.
+
+(* the chain site0 .. site(L-1): neighbours of site i are exactly i-1 and i+1, the parent pointer
+   points toward the root, the recorded tensor is tensor i, and axis 0 / axis 1 of tensor i are bound
+   to the left / right neighbour (site 0 has its only bond on axis 0) *)
+Theorem C19_mps_chain : forall (shapes : list (list nat)) (r : nat) (m : mpt) (i : nat),
+  mps_from_list shapes r = Some m -> i < length shapes ->
+  exists n, aget i (nodes (mst m)) = Some n
+    /\ (forall x, In x (neighbouring_nodes n) <-> (S x = i \/ (x = S i /\ x < length shapes)))
+    /\ parent n = (if i <? r then Some (S i) else if r <? i then Some (i - 1) else None)
+    /\ shape n = nth i shapes []
+    /\ (0 < i -> axis_to n (i - 1) = Some 0)
+    /\ (S i < length shapes -> axis_to n (S i) = Some (if i =? 0 then 0 else 1)).
+Proof. exact mps_chain. Qed.
+Print Assumptions C19_mps_chain.
+
+(* the documented input format [left, right, open...] with any bond dimensions and any open legs is
+   accepted for every root position: no add_child_to_parent call is rejected *)
+Theorem C19_mps_accepts : forall (bonds : list nat) (opens : list (list nat)) (r : nat),
+  length opens = S (length bonds) -> r <= length bonds ->
+  exists m, mps_from_list (mps_shapes bonds opens) r = Some m.
+Proof. exact mps_accepts. Qed.
+Print Assumptions C19_mps_accepts.
+
+(* the produced store satisfies the store invariant of TTN/Inv.v (one root, symmetric parent/child
+   links, acyclic, leg permutations are permutations, recorded shapes = wire dimensions, both ends of
+   every edge carry the same wire, no other sharing) *)
+Theorem C19_mps_store_wf : forall (shapes : list (list nat)) (r : nat) (m : mpt),
+  mps_from_list shapes r = Some m -> wfb (mst m) = true.
+Proof. exact mps_from_list_wf. Qed.
+Print Assumptions C19_mps_store_wf.
+
+(* ---- stars and forks built through add_chain_node / add_*_chain_node ----------------------------- *)
+Theorem C19_star_store_wf : forall (center : list nat) (calls : list (list nat * nat)) (m : star),
+  star_build center calls = Some m -> wfb (sst m) = true.
+Proof. exact star_build_wf. Qed.
+Print Assumptions C19_star_store_wf.
+
+Theorem C19_fork_store_wf : forall (calls : list fcall) (m : fork),
+  fork_build calls = Some m -> mainc m <> [] -> wfb (fst_ m) = true.
+Proof. exact fork_build_wf. Qed.
+Print Assumptions C19_fork_store_wf.
+
+(* the star product-state helper as found (bug = true: reshape to (1,2) / (1,1,2)) rejects every
+   valid parameter set with dimension <> 2 and at least one chain node *)
+Theorem C19_star_dim_refuted : forall sv dim clen nch : Z,
+  check_ps sv dim = true -> dim <> 2%Z -> (1 <= clen)%Z -> (1 <= nch)%Z ->
+  star_cps true sv dim clen nch = None.
+Proof. exact star_dim_refuted. Qed.
+Print Assumptions C19_star_dim_refuted.
+
+(* bounded: the repaired helper (bug = false) builds a well-formed star with 1 + chains * length nodes
+   for dimension 1..4, every state value, chain length 1..4, 0..4 chains *)
+Theorem C19_star_fixed_bounded : forall dim sv cl nc : nat,
+  In dim (seq 1 4) -> In sv (seq 0 dim) -> In cl (seq 1 4) -> In nc (seq 0 5) -> star_ok_b dim sv cl nc = true.
+Proof. exact star_fixed_bounded. Qed.
+Print Assumptions C19_star_fixed_bounded.
+
+(* bounded: binary trees with 1..16 physical sites, bond dimension 1..3: accepted, well-formed,
+   2n-1 nodes;  forks of width, height 1..5, bond 1..3: accepted, well-formed, width*height nodes,
+   main chain of `height` nodes *)
+Theorem C19_binary_bounded : forall n bd : nat, In n (seq 1 16) -> In bd (seq 1 3) -> binary_ok_b n bd = true.
+Proof. exact binary_bounded. Qed.
+Print Assumptions C19_binary_bounded.
+
+Theorem C19_ftps_bounded : forall w h bd : nat,
+  In w (seq 1 5) -> In h (seq 1 5) -> In bd (seq 1 3) -> ftps_ok_b w h bd = true.
+Proof. exact ftps_bounded. Qed.
+Print Assumptions C19_ftps_bounded.
+
+(* ---- TTNO.from_tensor: _get_qr_decomposition_shape ------------------------------------------------- *)
+(* a permutation of all 2n legs whenever leg_dict is a bijection nodes -> 0..n-1 *)
+Theorem C19_qr_shape_is_permutation : forall (lg : nat -> nat) (half : nat) (t : rtree),
+  Permutation (map lg (ids t)) (seq 0 half) -> Permutation (ft_perm lg half t) (seq 0 (2 * half)).
+Proof. exact ft_perm_is_permutation. Qed.
+Print Assumptions C19_qr_shape_is_permutation.
+
+(* own legs first, then the blocks of the children in reverse order: the legs of the first child's
+   subtree are the LAST 2 * size block, which is what _from_tensor_rec splits off first *)
+Theorem C19_qr_first_child_last : forall (leg : nat -> list nat) (i : nat) (c : rtree) (cs : list rtree),
+  qr_acc leg (RNode i (c :: cs)) [] = (leg i ++ concat (rev (map (fun c => qr_acc leg c []) cs))) ++ qr_acc leg c [].
+Proof. exact qr_first_child_last. Qed.
+Print Assumptions C19_qr_first_child_last.
+
+Theorem C19_qr_block_length : forall (lg : nat -> nat) (half : nat) (t : rtree), length (ft_perm lg half t) = 2 * size t.
+Proof. exact ft_perm_length. Qed.
+Print Assumptions C19_qr_block_length.
+
+(* ---- Ising builders ------------------------------------------------------------------------------------ *)
+(* the term list: one (-1, "ext_magn", {i: B}) per site, then one (-1, "coupling", {i: A, j: A}) per pair *)
+Theorem C19_ising_terms_shape : forall (S : Type) (eqb : S -> S -> bool) (sites : list S) (nn : list (S * S)),
+  ising_terms eqb sites nn
+  = map (fun i => ((-1)%Z, CExtMagn, [(i, OpExt)])) sites
+    ++ map (fun ij => ((-1)%Z, CCoupling, if eqb (fst ij) (snd ij) then [(fst ij, OpNN)] else [(fst ij, OpNN); (snd ij, OpNN)])) nn.
+Proof. exact @ising_terms_shape. Qed.
+Print Assumptions C19_ising_terms_shape.
+
+(* over any additive structure: the list denotes  sum_i (-1 * g) B_i + sum_<ij> (-1 * J) A_i A_j *)
+Theorem C19_ising_denotes : forall (S R M : Type) (zero : M) (add : M -> M -> M) (smul : R -> M -> M)
+    (rmul : R -> R -> R) (ofZ : Z -> R) (cval : coef -> R) (mono : list (S * opsym) -> M) (eqb : S -> S -> bool),
+  (forall a b c, add (add a b) c = add a (add b c)) -> (forall a, add zero a = a) ->
+  forall (sites : list S) (nn : list (S * S)),
+  (forall p, In p nn -> eqb (fst p) (snd p) = false) ->
+  eval_terms zero add smul rmul ofZ cval mono (ising_terms eqb sites nn)
+  = add (msum zero add (map (fun i => smul (rmul (ofZ (-1)%Z) (cval CExtMagn)) (mono [(i, OpExt)])) sites))
+        (msum zero add (map (fun ij => smul (rmul (ofZ (-1)%Z) (cval CCoupling)) (mono [(fst ij, OpNN); (snd ij, OpNN)])) nn)).
+Proof. exact @ising_denotes. Qed.
+Print Assumptions C19_ising_denotes.
+
+(* trees: nearest_neighbours lists every tree edge exactly once whatever the dictionary order; 2n-1 terms *)
+Theorem C19_tree_edges_once : forall (t : rtree) (ord : list nat),
+  NoDup (ids t) -> Permutation ord (ids t) -> Permutation (tree_nn t ord) (edges t).
+Proof. exact tree_nn_perm. Qed.
+Print Assumptions C19_tree_edges_once.
+
+Theorem C19_tree_term_count : forall (t : rtree) (ord : list nat),
+  NoDup (ids t) -> Permutation ord (ids t) -> length (ising_of_tree t ord) = 2 * size t - 1.
+Proof. exact ising_tree_count. Qed.
+Print Assumptions C19_tree_term_count.
+
+(* grids, every size: _find_nn_pairs lists exactly the grid edges, each once, never reversed *)
+Theorem C19_grid_pairs_are_edges : forall (r c : nat) (e : site2 * site2), In e (grid_pairs r c) <-> grid_edge r c e.
+Proof. exact grid_pairs_spec. Qed.
+Print Assumptions C19_grid_pairs_are_edges.
+
+Theorem C19_grid_edge_exactly_once : forall (r c : nat) (e : site2 * site2),
+  grid_edge r c e -> count_occ edge2_dec (grid_pairs r c) e = 1.
+Proof. exact grid_edge_exactly_once. Qed.
+Print Assumptions C19_grid_edge_exactly_once.
+
+Theorem C19_grid_edge_not_reversed : forall (r c : nat) (a b : site2),
+  In (a, b) (grid_pairs r c) -> ~ In (b, a) (grid_pairs r c).
+Proof. exact grid_pairs_oriented. Qed.
+Print Assumptions C19_grid_edge_not_reversed.
+
+Theorem C19_grid_coupling_count : forall r c : nat, length (grid_pairs r c) = (r - 1) * c + r * (c - 1).
+Proof. exact grid_pairs_length. Qed.
+Print Assumptions C19_grid_coupling_count.
+
+(* at least two sites: the single-site block is a permutation of the grid sites (one field term each) *)
+Theorem C19_grid_field_terms : forall r c : nat, 2 <= r * c ->
+  Permutation (dedup site2_eqb (flat_pairs (grid_pairs r c)) []) (list_prod (seq 0 r) (seq 0 c)).
+Proof. exact grid_single_sites. Qed.
+Print Assumptions C19_grid_field_terms.
+
+Theorem C19_grid_term_count : forall r c : nat, 2 <= r * c ->
+  length (ising_of_pairs site2_eqb (grid_pairs r c)) = r * c + ((r - 1) * c + r * (c - 1)).
+Proof. exact ising_grid_count. Qed.
+Print Assumptions C19_grid_term_count.
+
+(* the 1 x 1 grid: the builder returns no term at all (recorded finding C19-grid-1x1) *)
+Theorem C19_grid_1x1_refuted : ising_of_grid 1 1 = Some [].
+Proof. exact ising_grid_1x1_no_terms. Qed.
+Print Assumptions C19_grid_1x1_refuted.
+
+(* the exact dense builder sums the same terms as the symbolic builder on the chain = 1 x n grid *)
+Theorem C19_exact_terms : forall n : nat,
+  Permutation (exact_ising_terms n) (ising_terms Nat.eqb (seq 0 n) (chain_pairs n)).
+Proof. exact exact_terms_perm. Qed.
+Print Assumptions C19_exact_terms.
+
+Theorem C19_chain_is_grid_row : forall n : nat,
+  map (fun p => ((0, fst p), (0, snd p))) (chain_pairs n) = grid_pairs 1 n.
+Proof. exact chain_pairs_is_grid_row. Qed.
+Print Assumptions C19_chain_is_grid_row.
+
+(* ---- non-vacuity ------------------------------------------------------------------------------------------ *)
+Example C19_example_mps :
+  option_map (fun m => (map fst (nodes (mst m)), lefts m, rights m, wfb (mst m)))
+             (mps_from_list (mps_shapes [2; 3; 4] [[5]; [6; 2]; [7]; [8]]) 2)
+  = Some ([2; 1; 0; 3], [0; 1], [3], true).
 Proof. vm_compute. reflexivity. Qed.
-Print Assumptions C19_example.
+Print Assumptions C19_example_mps.
+
+Example C19_example_grid : length (grid_pairs 3 4) = 17 /\ ft_perm (fun i => i) 3 (RNode 0 [RNode 1 []; RNode 2 []]) = [0; 3; 2; 5; 1; 4].
+Proof. vm_compute. split; reflexivity. Qed.
+Print Assumptions C19_example_grid.
